@@ -572,7 +572,7 @@ theorem field_index_ambiguous (h : List HField) (view : Option String) (name : S
 
 /-- inside the join's own query the merged column wins (nothing before it carries the name) -/
 theorem join_column_wins (name : String) (pre : List HField) (f : HField) (post : List HField)
-    (hpre : ∀ g, g ∈ pre → fieldMatches none name g = false) (hf : fieldMatches none name f = true)
+    (hpre : ∀ g, g ∈ pre → fieldMatches none name g = false) (hf : eqFold f.name name = true)
     (hj : f.isJoin = true) : fieldIndex (pre ++ f :: post) none name = .ok pre.length := by
   unfold fieldIndex
   rw [fieldIndexGo_join_wins name pre f post 0 none hpre hf hj, Nat.zero_add]
@@ -655,10 +655,13 @@ example : recursiveImpl (fun g => g) 5 [[cI 1]] = none := by decide
 example : recursiveUnionImpl (fun r => r.map (fun p => p.int?))
       (fun g => (g.filter (fun r => r != [cI 3])).map (fun r => if r == [cI 1] then [cI 2] else [cI 3])) 9 [[cI 1], [cI 1]]
     = some [[cI 1], [cI 2], [cI 3]] := by decide
-example (n x : String) : fieldIndex [⟨"c", n, false⟩, ⟨"s", n, false⟩, ⟨"s", x, false⟩] none n = .error .ambiguous := by
-  simp [fieldIndex, fieldIndexGo, fieldMatches, eqFold]
-example (n : String) : fieldIndex [⟨"", n, true⟩, ⟨"c", n, false⟩] none n = .ok 0 := by
-  simp [fieldIndex, fieldIndexGo, fieldMatches, eqFold]
+example (n x : String) : fieldIndex [⟨"c", n, false, []⟩, ⟨"s", n, false, []⟩, ⟨"s", x, false, []⟩] none n = .error .ambiguous := by
+  simp [fieldIndex, fieldIndexGo, fieldMatches, joinWins, eqFold]
+example (n : String) : fieldIndex [⟨"", n, true, []⟩, ⟨"c", n, false, []⟩] none n = .ok 0 := by
+  simp [fieldIndex, fieldIndexGo, fieldMatches, joinWins, eqFold]
+-- `SELECT v AS k, k AS …`: the alias given to v makes the following unqualified k ambiguous
+example (k v : String) : fieldIndex [⟨"t", k, false, []⟩, ⟨"t", v, false, [k]⟩] none k = .error .ambiguous := by
+  simp [fieldIndex, fieldIndexGo, fieldMatches, joinWins, eqFold]
 example (t : String) : tableKind none [t] [t] t = .cte := by simp [tableKind, nameIn, eqFold]
 example : outerImpl .left 1 2 [[[cI 1]], [[cI 2]]] [] (fun _ => .T) = [[cI 1, nullP, nullP], [cI 2, nullP, nullP]] := by decide
 
